@@ -1,11 +1,19 @@
-"""C10 -- remote helpers (see checks/routing.py, spec/Runtime.tla RemoteSend, spec/Trace_Routing.tla TrRemoteMsg)."""
+"""C10 -- remote helpers (see checks/routing.py, spec/Runtime.tla RemoteSend, spec/Trace_Routing.tla TrRemoteMsg,
+spec/Builder.tla and TrBuilderNew/Set/Build)."""
 from . import routing
+from ..common import tlc_model, ToolError
 
 NOTE = ("RemoteSend (helper builds the message, chain delivers it) model-checked with invariant C10_RemoteRoutesBack; executor and querier "
         "helpers of every exec/query method of the corpus (handle typed by the contract and by dyn Interface, owned and borrowed, funds set "
         "on the builder), the instantiate builder (plain / label+admin+funds / salted) and the admin helpers recorded as RemoteMsg events; "
-        "each built body is delivered to the target's real entry point (queries through a recording mock querier) and the flight is validated")
+        "each built body is delivered to the target's real entry point (queries through a recording mock querier) and the flight is validated; "
+        "the builders as a state machine (Builder.tla: every setter sequence up to the bound, invariant C10_BuiltFromLastSet), and every such "
+        "sequence replayed call by call on the real ExecutorBuilder / InstantiateBuilder of the shared-family programs "
+        "(BuilderNew / BuilderSet / BuilderBuild events stepped through the same operators)")
 
 
 def run(prop, tier, seed, replay):
+    m = tlc_model("MC_Builder", "MC_Builder_%s.cfg" % tier, workers=2, timeout=600, expect=['"BUILDER-RUNS"'], coverage=True)
+    if m["never_taken"]:
+        raise ToolError("vacuous builder model: %s" % m["never_taken"])
     return routing.run_property(prop, tier, seed, NOTE)
